@@ -2,10 +2,12 @@
 Well-formedness of declarations for the round-trip theorems of C04: the syntactic side conditions under which the
 text printed for a declaration is read back as that declaration. Names are in their lexical classes, integer types
 are the eight supported ones, numbers are naturals (printed in decimal), a member is not called `inline`, a struct
-has at least one member. Comments and attributes are covered by separate predicates (`…A`), see below.
+has at least one member. Attributes are covered by the predicates `…A`, documentation comments (in the normal form
+`Comment.__init__` produces, `Comment.NormalComment`) by the predicates `…C` at the end of the file.
 -/
 import SymbolVerif.Model.Cats.Syntax
 import SymbolVerif.Proofs.CatsScanLemmas
+import SymbolVerif.Proofs.CatsComment
 namespace SymbolVerif.Cats
 open SymbolVerif.Cats.Lexer
 
@@ -177,5 +179,85 @@ inductive WFDeclA : Decl → Prop
   | struct (s : Struct) : WFStructA s → WFDeclA (.struct s)
 
 def WFDeclsA (ds : Schema) : Prop := ∀ d ∈ ds, WFDeclA d
+
+end SymbolVerif.Cats
+
+/-! ### declarations with attributes and documentation comments -/
+
+namespace SymbolVerif.Cats
+open SymbolVerif.Cats.Lexer
+
+/-- an optional documentation comment as the parser builds it: absent, or in the normal form of `Comment.__init__`
+    (`Comment.NormalComment`: the pieces between `\n` are empty or carry no leading / trailing `#`, blank, tab,
+    carriage return; the comment is not the empty text) -/
+def WFComment (c : Option Comment) : Prop := ∀ x, c = some x → Comment.NormalComment x
+
+theorem wfComment_none : WFComment none := by intro x hx; cases hx
+
+def setMemberComment : Member → Option Comment → Member
+  | .field f, c => .field { f with comment := c }
+  | .inlinePlaceholder t _, c => .inlinePlaceholder t c
+
+def memberComment : Member → Option Comment
+  | .field f => f.comment
+  | .inlinePlaceholder _ c => c
+
+/-- an enum value with an optional documentation comment -/
+inductive WFEnumValueC : EnumValue → Prop
+  | mk (v : EnumValue) (c : Option Comment) : WFEnumValue v → WFComment c → WFEnumValueC { v with comment := c }
+
+/-- a member (any form, with or without attribute lines) with an optional documentation comment -/
+inductive WFMemberC : Member → Prop
+  | mk (m : Member) (c : Option Comment) : WFMemberA m → WFComment c → WFMemberC (setMemberComment m c)
+
+/-- a declaration with attributes and documentation comments wherever the grammar has them: on the declaration, on
+    every enum value, on every member -/
+inductive WFDeclC : Decl → Prop
+  | alias (a : Alias) : WFAlias a → WFComment a.comment → WFDeclC (.alias a)
+  | enum (name : String) (base : IntType) (values : List EnumValue) (attrs : Option (List Attribute)) (c : Option Comment) :
+      IsTypeName name → WFInt base → (∀ v ∈ values, WFEnumValueC v) → WFAttrs WFEnumAttr attrs → WFComment c →
+      WFDeclC (.enum { name := name, base := base, values := values, attributes := attrs, comment := c })
+  | struct (d : Option String) (name : String) (fields : List Member) (attrs : Option (List Attribute)) (c : Option Comment) :
+      d ∈ structDispositions → IsTypeName name → fields ≠ [] → (∀ m ∈ fields, WFMemberC m) → WFAttrs WFStructAttr attrs →
+      WFComment c →
+      WFDeclC (.struct { disposition := d, name := name, fields := fields, attributes := attrs, comment := c })
+
+def WFDeclsC (ds : Schema) : Prop := ∀ d ∈ ds, WFDeclC d
+
+theorem wfMemberA_comment (m : Member) (h : WFMemberA m) : memberComment m = none := by
+  cases h with
+  | bare m hb => cases hb <;> rfl
+  | plain => rfl
+  | valuePlaceholder => rfl
+
+theorem setMemberComment_none (m : Member) (h : memberComment m = none) : setMemberComment m none = m := by
+  cases m with
+  | field f => simp only [memberComment] at h; simp [setMemberComment, ← h]
+  | inlinePlaceholder t c => simp only [memberComment] at h; simp [setMemberComment, h]
+
+theorem memberComment_set (m : Member) (c : Option Comment) : memberComment (setMemberComment m c) = c := by
+  cases m <;> rfl
+
+theorem wfMemberC_of_A (m : Member) (h : WFMemberA m) : WFMemberC m := by
+  have := WFMemberC.mk m none h wfComment_none
+  rwa [setMemberComment_none m (wfMemberA_comment m h)] at this
+
+theorem wfEnumValueC_of (v : EnumValue) (h : WFEnumValue v) : WFEnumValueC v := by
+  have := WFEnumValueC.mk v none h wfComment_none
+  cases h
+  exact this
+
+/-- declarations without comments are a special case -/
+theorem wfDeclC_of_A (d : Decl) (h : WFDeclA d) : WFDeclC d := by
+  cases h with
+  | alias a ha hc => exact .alias a ha (by rw [hc]; exact wfComment_none)
+  | «enum» e he =>
+    cases he with
+    | mk name base values attrs hn hb hv hattrs =>
+      exact .enum name base values attrs none hn hb (fun v hv' => wfEnumValueC_of v (hv v hv')) hattrs wfComment_none
+  | struct s hs =>
+    cases hs with
+    | mk d name fields attrs hd hn hne hm hattrs =>
+      exact .struct d name fields attrs none hd hn hne (fun m hm' => wfMemberC_of_A m (hm m hm')) hattrs wfComment_none
 
 end SymbolVerif.Cats
